@@ -126,10 +126,31 @@ def canon_token(t, pos=True):
     return ['T', t.type, v]
 
 
+class CanonTooBig(BaseException):
+    """result tree beyond CANON_LIMIT nodes (explicit-ambiguity trees can be exponential): the case is not judged"""
+
+
+CANON_LIMIT = 150_000
+_canon_nodes = [0]
+
+
+def canon_reset():
+    _canon_nodes[0] = 0
+
+
 def canon_tree(t, pos=False, meta=False):
+    """canonical plain-data form of a lark result; raises CanonTooBig beyond CANON_LIMIT nodes"""
+    _canon_nodes[0] = 0
+    return _canon(t, pos, meta)
+
+
+def _canon(t, pos=False, meta=False):
     from lark import Tree, Token
+    _canon_nodes[0] += 1
+    if _canon_nodes[0] > CANON_LIMIT:
+        raise CanonTooBig()
     if isinstance(t, Tree):
-        out = ['N', str(t.data), [canon_tree(c, pos, meta) for c in t.children]]
+        out = ['N', str(t.data), [_canon(c, pos, meta) for c in t.children]]
         if meta:
             m = t.meta
             if getattr(m, 'empty', True):
@@ -142,7 +163,7 @@ def canon_tree(t, pos=False, meta=False):
     if t is None:
         return None
     if isinstance(t, (list, tuple)):
-        return ['L', [canon_tree(c, pos, meta) for c in t]]
+        return ['L', [_canon(c, pos, meta) for c in t]]
     if isinstance(t, (str, int, float, bool)):
         return ['V', t]
     return ['V', repr(t)]
